@@ -190,7 +190,10 @@ MonStep ==
           [] ln.k = "dtor" ->
              /\ heap' = HeapOf(ln.obs)
              /\ led' = EraseRec(led, ln.a)
-             /\ ob' = [ObsInto(ob, ln.obs) EXCEPT !.dlog = Append(@, ln.a)]
+             /\ ob' = LET x1 == ObsInto(ob, ln.obs)
+                      IN [x1 EXCEPT !.dlog = Append(@, ln.a),
+                                    \* counts reported through the held handles from inside the destructor
+                                    !.flags = @ \cup SeenFlags(ln.seen, HeapOf(ln.obs), led', x1)]
              /\ ctl' = [stack |-> UserFrame(ln.a), mode |-> "run"]
              /\ sn' = sn /\ mstd' = mstd
           [] ln.k = "died" ->
